@@ -47,7 +47,8 @@ ASSUMPTIONS = [
 RULE = ("EXHAUSTIVE: every shape n_x, n_y <= 7, n_z <= 4 (quick) / n_x, n_y <= 12, n_z <= 5 (thorough) in both "
         "arrangements, all N^2 matrix entries, the exposure vector and the scaled H_int/H_ext (random k, the "
         "configured A), and the same object re-declared to the transposed (or next wider) shape with the three "
-        "accessors read in one of the six orders, compared with a fresh object and with the model; a case is one "
+        "accessors read in one of the six orders, and re-pointed (same shape) to the other arrangement through "
+        "configPath after the pattern was built, each compared with a fresh object and with the model; a case is one "
         "(arrangement, shape, k); non-trivial when the batch has at least one pair of "
         "neighbours; distinct by the JSON form of the case (the corpus cases repeat box shapes with other k)")
 EXPLANATION = ("Lean theorems for all shapes about the closed-form interaction pattern + exhaustive entrywise "
@@ -112,6 +113,18 @@ def redeclared(case):
     return new, ORDERS[(nx + 2 * ny + 3 * nz) % 6]
 
 
+def other_arr(arr):
+    return "hexagonal" if arr == "square" else "square"
+
+
+def _raw_pattern(S):
+    M, E = S._buildInteractionMatrices()
+    M = np.asarray(M.todense())
+    ii, jj = np.nonzero(M)
+    return ([[int(i), int(j), _num(M[i, j])] for i, j in zip(ii, jj) if i != j],
+            [_num(M[i, i]) for i in range(M.shape[0])], [_num(e) for e in np.asarray(E).ravel()])
+
+
 def _pattern(S):
     H = np.asarray(S.H_int.todense())
     ii, jj = np.nonzero(H)
@@ -172,6 +185,24 @@ def run_impl(case):
                          "n_int": [len(hi), len(fi)], "n_ext": [len(hx), len(fx)], "n_shelf": [len(hs), len(fs)]}
     except Exception as e:
         obs["redecl"] = {"shape": list(new), "order": list(order), "raise": core.exc_class(e)}
+    # the same shape re-pointed to the other arrangement through the public configPath setter after the
+    # pattern was built once: _buildInteractionMatrices must serve the pattern of the final arrangement
+    # (H_int / H_ext are cached per N_vials only in the code as it is and are not looked at here)
+    oth = other_arr(case["arr"])
+    try:
+        S2 = Snowflake(k={"int": case["k_int"], "ext": case["k_ext"], "s0": 20}, N_vials=(nx, ny, nz),
+                       configPath=config_for(case["arr"]))
+        S2._buildInteractionMatrices()
+        S2.getVialGroup("corner")
+        S2.configPath = config_for(oth)
+        e, d, x = _raw_pattern(S2)
+        F2 = Snowflake(k={"int": case["k_int"], "ext": case["k_ext"], "s0": 20}, N_vials=(nx, ny, nz),
+                       configPath=config_for(oth))
+        fe, fd, fx = _raw_pattern(F2)
+        obs["switched"] = {"arr": oth, "entries": e, "diag": d, "ext": x,
+                           "same_as_fresh": bool(e == fe and d == fd and x == fx)}
+    except Exception as ex:
+        obs["switched"] = {"arr": oth, "raise": core.exc_class(ex)}
     return obs
 
 
@@ -185,6 +216,10 @@ def run_model(drv, case):
     if "error" in r2:
         raise RuntimeError(r2["error"])
     r["redecl"] = {"entries": r2["entries"], "deg": r2["deg"], "ext": r2["ext"]}
+    r3 = drv.call({"op": "topology", "arr": other_arr(case["arr"]), "nx": case["nx"], "ny": case["ny"], "nz": case["nz"]})
+    if "error" in r3:
+        raise RuntimeError(r3["error"])
+    r["switched"] = {"entries": r3["entries"], "deg": r3["deg"], "ext": r3["ext"]}
     return r
 
 
@@ -226,6 +261,14 @@ def compare(case, impl, model):
         if not close(x, e * ke * A):
             dis.append(f"H_ext[{i}]: impl {x!r} vs model {e * ke * A!r}")
             break
+    sw, msw = impl.get("switched"), model.get("switched")
+    if sw is not None and msw is not None:
+        tag = f"object re-pointed to the {sw['arr']} arrangement after the pattern was built"
+        if "raise" in sw:
+            dis.append(f"{tag}: raises {sw['raise']}")
+        elif ({(i, j): v for i, j, v in sw["entries"]} != {(i, j): v for i, j, v in msw["entries"]}
+              or sw["diag"] != [-d for d in msw["deg"]] or sw["ext"] != msw["ext"]):
+            dis.append(f"{tag}: _buildInteractionMatrices is not the pattern of the final arrangement")
     rd, md = impl.get("redecl"), model.get("redecl")
     if rd is not None and md is not None:
         tag = f"object re-declared to {tuple(rd['shape'])}, accessors read as {'/'.join(rd['order'])}"
@@ -299,6 +342,13 @@ def predicates(case, impl):
                                   + (f"raises {rd['raise']}" if "raise" in rd else
                                      f"H_int/H_ext/H_shelf differ from a fresh object of that shape (sizes served/fresh: "
                                      f"{rd['n_int']}, {rd['n_ext']}, {rd['n_shelf']})")))
+    sw = impl.get("switched")
+    if sw is not None and not sw.get("same_as_fresh", False):
+        out.append(Failure(clause="switched_arrangement", key=f"switched_arrangement|configPath|{ic}",
+                           detail=f"{arr} object {nx}x{ny}x{nz}: pattern built, then configPath re-pointed to the "
+                                  f"{sw['arr']} arrangement: "
+                                  + (f"raises {sw['raise']}" if "raise" in sw else
+                                     "_buildInteractionMatrices differs from a fresh object of the final configuration")))
     tol = 1e-9 * impl["heat_scale"]
     if abs(impl["heat_sum"]) > tol:
         out.append(Failure(clause="heat_cancels", key=f"heat_cancels|H_int|{ic}",
